@@ -4,7 +4,9 @@ ids 0..10 are harness/fnlib.py's polynomial functions (same ids), 11..15 conditi
 position and a division by a constant, 16..18 functions that fn_to_sympy refuses (before and after
 the proposed C06 repairs), 19..27 functions with LOCAL ASSIGNMENTS whose names are reassigned
 inside a branch and read after it (TRANSLATABLE is an explicit set: ids stay stable), 28..37 functions
-that fn_to_sympy must refuse BY ARITY (a call relying on a default value, a keyword-only parameter, *args).  coq/codegen/CgInst.v (fsemQ / translatesQ) mirrors this table: keep ids stable.
+that fn_to_sympy must refuse BY ARITY (a call relying on a default value, a keyword-only parameter, *args),
+38..42 translatable functions around the module-level FLOAT constants c_half / c_gain: one reads them as
+globals, the others have a PARAMETER or a LOCAL of the same name (which shadows the global in Python).  coq/codegen/CgInst.v (fsemQ / translatesQ) mirrors this table: keep ids stable.
 Every function is exact on small dyadic rationals in binary64."""
 
 from __future__ import annotations
@@ -224,6 +226,60 @@ def u_empty_top(n0011=2.0):  # as a computed coefficient over NO argument
     return n0011 * 3.0
 
 
+# ---- module-level float constants and names that SHADOW them (ids 38..42, translatable) ---------
+# fn_to_sympy's _handle_name looks a name up in the function's own symbol table (parameters and
+# locals) FIRST and only then among the float constants of the defining module, which it inlines
+# with their value.  That is Python's own scoping: a parameter / local called like a module
+# constant shadows it.  (seeded change C07-8 inverted the precedence.)  m_const reads the constants
+# as globals -- their values must be inlined; the others bind one of the two names themselves while
+# still reading the OTHER one as a global.
+c_half = 0.5
+c_gain = 4.0
+
+
+def m_const(a):
+    return a * c_half + c_gain
+
+
+def m_param(a, c_half):  # a PARAMETER called like the constant (the model passes its own component)
+    return a * c_half + c_gain
+
+
+def m_local(a, b):  # a LOCAL called like the constant
+    c_half = a + b
+    return c_half * a - c_gain
+
+
+def m_rebind(a, c_gain):  # a parameter called like the constant, reassigned from the OTHER constant
+    r = a * c_gain
+    c_gain = r + c_half
+    return c_gain * 2.0
+
+
+def k_shadow(s, c_gain):  # helper (not a table entry): its PARAMETER shadows, c_half is the global
+    return s * c_gain + c_half
+
+
+def m_helper(a, b):  # the shadowing happens inside a helper; the caller reads the global
+    return k_shadow(a, b) - c_gain
+
+
+# scope correspondence only (harness/c07_scope.py; never part of a model)
+def k_unbound(a):  # CPython: UnboundLocalError -- c_half is local THROUGHOUT; fn_to_sympy reads the constant
+    r = a * c_half
+    c_half = r + 1.0
+    return c_half
+
+
+def k_nameerr(a):  # a name defined nowhere: NameError in CPython, KeyError out of fn_to_sympy
+    return a * c_missing  # noqa: F821
+
+
+def k_localconst(a):  # a local called like one constant, computed from the other
+    c_gain = c_half * a
+    return c_gain + a
+
+
 FNS = [
     f_id, f_neg, f_add, f_sub, f_mul, f_lin, f_sq, f_poly2, f_two, f_ma2, f_sum3,
     g_max2, g_abs, g_relu, g_half, g_clamp,
@@ -231,12 +287,18 @@ FNS = [
     h_cap, h_default, h_nested, h_swap, h_elif, h_step, h_else_reads, h_else_assigns, h_after,
     u_default_helper, u_default_inner, u_default_mid, u_default_top, u_kwonly, u_kwhelper, u_star, u_starhelper,
     u_empty_helper, u_empty_top,
+    m_const, m_param, m_local, m_rebind, m_helper,
 ]  # fmt: skip
 # number of arguments the MODEL passes (for 28..37 not the number of parameters)
 ARITY = [1, 1, 2, 2, 2, 3, 1, 2, 0, 3, 3, 2, 1, 2, 1, 3, 1, 2, 1, 2, 2, 3, 2, 2, 1, 3, 2, 2,
-         1, 2, 2, 1, 1, 1, 2, 2, 1, 0]
+         1, 2, 2, 1, 1, 1, 2, 2, 1, 0,
+         1, 2, 2, 2, 2]
 # ids are positions in FNS and never change; new functions are appended
-TRANSLATABLE = frozenset(range(16)) | frozenset(range(19, 28))
+TRANSLATABLE = frozenset(range(16)) | frozenset(range(19, 28)) | frozenset(range(38, 43))
+# around the module's float constants (a global read, parameters / locals shadowing it)
+MODULE_CONSTANTS = frozenset(range(38, 43))
+# calls a helper: outside the straight-line scope model (coq/codegen/NameScope.v); oracle + fsemQ only
+SCOPE_CALLS_HELPER = frozenset({42})
 CONDITIONAL = {11, 12, 13, 15, 19, 20, 21, 22, 23, 24, 25, 26, 27}
 LOCAL_ASSIGNMENT = {19, 20, 21, 22, 23, 24, 25, 26, 27}
 # refused because the call relies on a default value / a keyword-only parameter / *args
@@ -258,7 +320,9 @@ EMPTY_CALL = frozenset({36, 37})
 SURPLUS_ONLY = frozenset({34, 35})
 BY_ARITY: dict[int, list[int]] = {}
 for _i, _a in enumerate(ARITY):
-    if _i in TRANSLATABLE:
+    # the random generator draws from ids < 38 (its stream predates the later ids, which the
+    # function-table sweep, the corpus and the scope correspondence cover)
+    if _i in TRANSLATABLE and _i < 38:
         BY_ARITY.setdefault(_a, []).append(_i)
 UNTRANSLATABLE_BY_ARITY = {1: [16, 18, 28, 32, 33], 2: [17, 29, 30, 34, 35]}
 UNTRANSLATABLE_COEF_BY_ARITY = {1: [16, 18, 28, 31, 32, 33], 2: [17, 29, 30, 34, 35]}
